@@ -47,6 +47,50 @@ pub fn search_c17(r: &mut Report, tier: &str) {
         }
     }
     search_c17_map(r, tier);
+    if r.failures == 0 { search_c17_map_orswot(r, tier); }
+}
+
+/// Map<u8, Orswot>: the NESTED verdict.  Correct use (actors 2 and 3, one replica each) must be accepted in both directions at
+/// every step; then actor 1 is used at both replicas for different members under one key: where the two versions of that entry are
+/// concurrent the misuse must be flagged in both directions.  (Where the entry clocks are comparable the crate does not look at
+/// the nested values at all -- recorded finding F17b -- so those pairs are left out by construction, not by relaxing the oracle.)
+fn search_c17_map_orswot(r: &mut Report, tier: &str) {
+    use crdts::{Map, Orswot};
+    type MO = Map<u8, Orswot<u8, u8>, u8>;
+    let n = if tier == "thorough" { 40000 } else { 4000 };
+    r.bound.push_str(&format!("; Map<u8, Orswot>: {} fixed-seed random programs of 8 steps over 2 replicas (nested add / nested rm / key rm, causal op exchange), validate_merge in both directions after every step, then one actor used at both replicas under one key (pairs with concurrent entry clocks)", n));
+    let mut s: u64 = 0x1234_5678_9abc_def1;
+    let mut lcg = move || { s = s.wrapping_mul(6364136223846793005).wrapping_add(1442695040888963407); s >> 33 };
+    for _ in 0..n {
+        let mut reps: Vec<MO> = vec![MO::new(), MO::new()];
+        let mut logs: Vec<Vec<crdts::map::Op<u8, Orswot<u8, u8>, u8>>> = vec![vec![], vec![]];
+        let mut got_from = [0usize; 2];
+        let mut desc = String::new();
+        for _ in 0..8 {
+            let i = (lcg() % 2) as usize; let actor = (i + 2) as u8;
+            let k = (lcg() % 2) as u8; let m = (lcg() % 3) as u8;
+            match lcg() % 6 {
+                0 | 1 => { let op = reps[i].update(k, reps[i].read_ctx().derive_add_ctx(actor), |set, c| set.add(m, c)); reps[i].apply(op.clone()); logs[i].push(op); desc.push_str(&format!(" r{}:add({},{})", i, k, m)); }
+                2 => { let op = reps[i].update(k, reps[i].read_ctx().derive_add_ctx(actor), |set, _c| set.rm(m, set.contains(&m).derive_rm_ctx())); reps[i].apply(op.clone()); logs[i].push(op); desc.push_str(&format!(" r{}:nrm({},{})", i, k, m)); }
+                3 => { let op = reps[i].rm(k, reps[i].get(&k).derive_rm_ctx()); reps[i].apply(op.clone()); logs[i].push(op); desc.push_str(&format!(" r{}:rmkey({})", i, k)); }
+                _ => { let j = 1 - i; if got_from[i] < logs[j].len() { let op = logs[j][got_from[i]].clone(); got_from[i] += 1; reps[i].apply(op.clone()); logs[i].push(op); desc.push_str(&format!(" r{}<-next(r{})", i, j)); } }
+            }
+            let (v01, v10) = (reps[0].validate_merge(&reps[1]), reps[1].validate_merge(&reps[0]));
+            r.case("map_orswot.correct_use_accepted", v01.is_ok() && v10.is_ok(), &|| desc.clone(), &|| format!("validate_merge: {:?} / {:?}", v01, v10));
+            if r.failures > 0 { return; }
+        }
+        for k in 0..2u8 {
+            let (mut x, mut y) = (reps[0].clone(), reps[1].clone());
+            let ox = x.update(k, x.read_ctx().derive_add_ctx(1), |set, c| set.add(10, c)); x.apply(ox);
+            let oy = y.update(k, y.read_ctx().derive_add_ctx(1), |set, c| set.add(11, c)); y.apply(oy);
+            let (ex, ey) = (x.get(&k).rm_clock, y.get(&k).rm_clock);
+            let same_dot = ex.get(&1) == ey.get(&1);
+            if !same_dot || !ex.concurrent(&ey) { continue; }
+            let (vxy, vyx) = (x.validate_merge(&y), y.validate_merge(&x));
+            r.case("map_orswot.nested_double_spend_flagged", vxy.is_err() && vyx.is_err(), &|| format!("{} then actor 1 adds 10 under key {} at r0 and 11 under key {} at r1", desc, k, k), &|| format!("dot 1.{} witnesses member 10 at r0 and member 11 at r1 (entry clocks {:?} / {:?} concurrent); validate_merge: {:?} / {:?}", ex.get(&1), ex, ey, vxy, vyx));
+            if r.failures > 0 { return; }
+        }
+    }
 }
 
 /// C17 for Map<u8, MVReg>: Err exactly when some dot witnesses DIFFERENT keys on the two sides (MVReg values never flag)
